@@ -3,6 +3,7 @@ package core
 import (
 	"bytes"
 	"context"
+	"fmt"
 	"hash/crc32"
 	"io"
 	"io/ioutil"
@@ -60,6 +61,12 @@ func (label *Label) UploadDescriptor(ctx context.Context, bundle *Bundle) (err e
 	err = RepoExists(bundle.RepoID, bundle.contextStores)
 	if err != nil {
 		return err
+	}
+	// the name must be the one read back from the label's path: a name holding a path separator is stored
+	// under a key that no listing of the repository's labels can parse
+	apc, err := model.GetArchivePathComponents(model.GetArchivePathToLabel(bundle.RepoID, label.Descriptor.Name))
+	if err != nil || apc.LabelName != label.Descriptor.Name || apc.Repo != bundle.RepoID {
+		return fmt.Errorf("invalid label name: %q", label.Descriptor.Name)
 	}
 	label.Descriptor.BundleID = bundle.BundleID
 	buffer, err := yaml.Marshal(label.Descriptor)
